@@ -562,3 +562,60 @@ def check_c03(pid, tier, seed, replay=None):
       'scenario = a generated chained stream with 1..5 page-level damages drawn from {garbage between pages, capture pattern in garbage, dropped / duplicated / swapped page, truncation at byte d of a page, rewritten granule position (negative, 0, huge, decreasing) with CRC re-fixed, cleared/extra EOS, extra BOS, rewritten serial number (incl. a repeat of another link), bit flips with and without CRC fix, zeroed body}, opened seekable / streaming / via ov_test, followed by 10 random calls over the whole vorbisfile API (reads, every seek and lapped seek, half-rate, crosslap with an intact handle, queries) and a double clear; run under ASan+UBSan with CPU budget and exit trap; oracle (decided in VFApi): no crash, no hang, no exit, documented return codes, failed open leaves the handle zeroed and the source unclosed, close exactly once, no leak; non-trivial = >= 6 events; distinct = distinct damage list + script',
       nt, ['structured damage only (page level); arbitrary byte strings are not claimed','identity/position rules are switched off for damaged streams'],
       extra_cov=dict(damage_kinds=DAMAGE_KINDS))
+
+# ---------------------------------------------------------------- C17 integer PCM packing
+def pcm_probe_values(seed):
+    """TLC model-checks PcmPack over the boundary set and exports it (spec -> code)."""
+    r = vlib.run_tlc('PcmPack_MC.tla', 'PcmPack_MC.cfg', workers=1, timeout=300)
+    if not r['ok']: raise SystemExit('PcmPack_MC failed:\n' + r['out'][-2000:])
+    import re, json as _j
+    m = re.search(r'"PROBE (\[.*\])"', r['out'])
+    probe = _j.loads(m.group(1).replace('\\"','"'))
+    vals = [ (s<<31)|(ex<<23)|mm for (s,ex,mm) in probe ]
+    return vals, dict(mc_states=r['distinct'], mc_ok=True, probe_values=len(vals))
+
+def check_c17(pid, tier, seed, replay=None):
+    t0 = time.time(); rng = random.Random(seed*7919+17)
+    bindir = vlib.build('asan')
+    quick = (tier != 'thorough')
+    vals, st = pcm_probe_values(seed)
+    import checks.vfcommon as C
+    C.LINKS[30] = '255 44100 10 1500 31'      # 255 channels
+    C.FILES['W'] = '30'
+    files = ['B','E','K','C','T'] + (['W'] if True else []) + ([] if quick else ['A','D','I','J','N','P','R','S','L'])
+    fmts = [(w,sg,be) for w in (1,2) for sg in (0,1) for be in (0,1)]
+    scs = []
+    for f in files:
+        chs = 255 if f == 'W' else 6
+        # (a) real streams: every format, assorted buffer lengths incl. too small / not a multiple of a frame
+        for mode in ('seek','stream'):
+            ls = [f'open 0 {fid(f)} {mode}']
+            for (w,sg,be) in fmts:
+                for L in (0, 1, w*chs-1, w*chs, w*chs+1, 4096, 100000, 3, 509*w):
+                    ls.append(f'ri 0 {L} {w} {sg} {be}')
+            ls += ['ri 0 4096 0 1 0', 'ri 0 4096 -1 1 0', 'rf 0 64', 'ri 0 64 2 1 0']
+            if mode == 'seek': ls += ['ps 0 f:0:1:2:1', 'ri 0 4096 2 1 1', 'hr 0 1', 'ri 0 4096 2 0 0', 'ri 0 4096 1 1 0']
+            ls += ['rfn 0 4096 -1', 'ri 0 4096 2 1 0', 'clear 0']
+            scs.append(Scenario(f'pack-real-{mode}-{f}', [f], ls, 'pack-real', budget=60))
+        # (b) injected TLC-chosen values through ov_read_filter: all formats, value list rotated so every value meets every channel slot
+        nrot = 3 if quick else 12
+        for r_ in range(nrot):
+            vv = vals[:]; rng.shuffle(vv)
+            chunks = [vv[i:i+64] for i in range(0, len(vv), 64)]
+            ls = [f'open 0 {fid(f)} seek', 'ps 0 f:0:1:5:0']
+            for ci, ch_ in enumerate(chunks):
+                (w,sg,be) = fmts[(ci + r_) % 8]
+                hexs = ','.join('%08x' % x for x in ch_)
+                ls.append(f'rif 0 {rng.choice([4096, 65536, w*chs*3, w*chs])} {w} {sg} {be} {hexs}')
+                if ci % 5 == 4: ls.append(f'ps 0 f:0:{rng.randrange(1,9)}:10:0')
+            ls += ['clear 0']
+            scs.append(Scenario(f'pack-inj-{f}-{r_}', [f], ls, 'pack-inject', budget=60))
+    res = run_batch(pid, tier, scs, bindir)
+    rules = {'PcmConversion','WholeFrames','WritesInsideBuffer','SmallBufferIsAnError','ErrorWritesNothing','ErrorKeepsPosition','ReadAtMostLen',
+             'ReadAdvancesByCount','ReadContinuesAtPosition','ReadIdentity','ReadLinkIndex','ReadChannels','ReadAtEndReturnsEof','ReadDeliversBeforeEnd'} | SAFETY_RULES
+    def nt(s, evs): return sum(1 for e in evs if e.get('e')=='ReadI' and e.get('ret',0) > 0 and len(e.get('smp',[])) > 0) >= 3
+    nsmp = sum(len(e.get('smp',[])) for evs in res['scn_events'].values() for e in evs if e.get('e')=='ReadI')
+    return finish(pid, tier, seed, 'model_checking', scs, res, rules, t0,
+      'scenario = (a) integer reads of real generated streams (1, 2, 3, 6 and 255 channels; seekable, streaming, half rate) in all 8 (word, signed, endian) formats with buffer lengths 0, 1, frame-1, frame, frame+1, odd, large, and word sizes 0/-1/3; the float the library converted is identified through the position (bit-exact reference) and sampled (first/last/interior frames, <= 4 channels) for PcmPack; (b) reads through ov_read_filter in which the decoded floats are replaced by the boundary set exported by TLC from PcmPack_MC (exact ties at both scales, +-(1-ulp), +-1, rails, +-65536, 2^31, 1e30, denormals, inf, NaN), every output word checked; non-trivial = >= 3 reads with checked samples; distinct = distinct script',
+      nt, COMMON_ASSUME + ['frame layout / channel order is checked through the sampled (frame, channel) byte positions', 'an exact rounding tie may go either way; NaN may give any representable word'],
+      extra_cov=dict(pcmpack_mc=st, converted_samples_checked=nsmp))
